@@ -106,7 +106,9 @@ def run_target(kb, t, obj, workdir, trace=True):
     if t.unwind is not None:
         cb += ["--unwind", str(t.unwind), "--unwinding-assertions"]
     cb += ["--object-bits", str(t.objbits or 12)]
-    if t.solver:
+    if t.solver and t.solver.startswith("sat:"):
+        cb += ["--sat-solver", t.solver[4:]]  # e.g. cadical: MiniSat is pathological on some contract instances (DESIGN 13)
+    elif t.solver:
         cb.append("--" + t.solver)
     cb.append(gb2)
     res["cmd"] = " ".join(gi) + " && " + " ".join(cb)
@@ -138,7 +140,7 @@ def run_target(kb, t, obj, workdir, trace=True):
         res["messages"].append("no result block (rc=%s) %s" % (rc, err[-800:]))
         return res
     res["results"] = results
-    res["backend"] = t.solver or "sat(minisat2)"
+    res["backend"] = ("sat(%s)" % t.solver[4:] if (t.solver or "").startswith("sat:") else t.solver) or "sat(minisat2)"
     return res
 
 
